@@ -839,8 +839,10 @@ class Verifier:
         for cls, cond in allowed:
             if cond is not None and exc_is_sub(exc.cls, cls):
                 path.prove(I.eval_spec(cond, I.old_env), "%s/raises-only-if:%s" % (c.short, cls), "raises", where=cond)
+        # `exc_msg`: the first constructor argument of the escaping exception when it is a string
+        extra = {"exc_msg": exc.args[0]} if exc.args and isinstance(exc.args[0], VStr) else None
         for nm, src in c.ensures_exc:
-            path.prove(I.eval_spec(src, env), "%s/post-exc:%s" % (c.short, nm), "post", where=src)
+            path.prove(I.eval_spec(src, env, extra=extra), "%s/post-exc:%s" % (c.short, nm), "post", where=src)
 
 
 def exec_ghost(self, st, env, extra=None, skip_unbound=False):
